@@ -175,6 +175,12 @@ static void run_N(Ctx& ctx, uint64_t N, const CpuCfg& cfg, int pa0, int pa1, boo
     if (!ok) { ctx.metric_add(2); continue; }
     std::string id = sfmt("product|%s|N=%llu|a=%s (M=%lld)|b=%s (M=%lld)", cfg.name, (unsigned long long)N, PN[pa], (long long)Ma, PN[pb], (long long)Mb);
     run_pair(ctx, mod, N, id, a, b, full);
+    // the zero polynomial as one factor (E = 0: the product must be exactly zero in every path), both orders
+    if (pb == 0 && regime == 1) {
+      std::vector<int64_t> z(N, 0);
+      run_pair(ctx, mod, N, sfmt("product|%s|N=%llu|a=%s (M=%lld)|b=0", cfg.name, (unsigned long long)N, PN[pa], (long long)Ma), a, z, full);
+      run_pair(ctx, mod, N, sfmt("product|%s|N=%llu|a=0|b=%s (M=%lld)", cfg.name, (unsigned long long)N, PN[pa], (long long)Ma), z, a, full);
+    }
   }
 }
 
